@@ -293,6 +293,21 @@ def run(ctx):
              "or: echo '{\"source\": <module text>, \"funcs\": [\"%s\"]}' | /venv/bin/python /verif/props/C19/impl_seq.py" % (c["fn"], c["fn"]))
         return t
 
+    for c in diffs:
+        witnessed = any(f[0] is c for f in sem_fail)
+        if witnessed:
+            continue
+        key = f"seq:{c['family']}:{json.dumps(c['params'], sort_keys=True)}"
+        ctx.report(key, "correspondence", f"{c['family']}: emitted op sequence differs from the model's",
+                   {"program": c["src"], "params": c["params"], "emitted_tokens": c.get("impl_tokens"),
+                    "model_tokens": c.get("model_tokens"), "comp_wiring": c.get("comp_wiring"),
+                    "emitted_index_events": L.index_events(c["region"]) if "n_inputs" in c["region"] else None,
+                    "unevaluable_on_model_machine": c["id"] in unevaluable,
+                    "note": "no (array, index) was found on which the emitted sequence disagrees with list semantics; the proofs no longer cover the emitted code",
+                    "replay": replay_text(c)}, found_input=False)
+    for c, what in problems:
+        ctx.report(f"struct:{c['family']}:{json.dumps(c['params'], sort_keys=True)}", "correspondence", what,
+                   {"program": c["src"], "params": c["params"], "replay": replay_text(c)}, found_input=False)
     reported = set()
     for c, inputs, side, got, want, other in sem_fail:
         key = f"sem:{c['family']}:{json.dumps(c['params'], sort_keys=True)}:{side}"
@@ -305,22 +320,9 @@ def run(ctx):
                     "expected": "panic (no array produced)" if want == L.PANIC else show(want),
                     "observed_encoded": got, "other_side_encoded": other,
                     "encoding": "[0,k,vals..]=Ok; [1,code]=Panic (1 index-oob unwrap, 2 op oob, 3 already borrowed, 4 cell full, 5 some borrowed, 6 not all borrowed, 7 unpack); val: [0,z] int, [2,q] resource, [6,len,(0|1 val)..] array, [4,tag,len,..] sum, [5,len,..] tuple",
+                    "emitted_index_events": L.index_events(c["region"]) if "n_inputs" in c["region"] else None,
                     "emitted_tokens": c.get("impl_tokens"), "model_tokens": c.get("model_tokens"),
                     "replay": replay_text(c, inputs)})
-    for c in diffs:
-        witnessed = any(f[0] is c for f in sem_fail)
-        if witnessed:
-            continue
-        key = f"seq:{c['family']}:{json.dumps(c['params'], sort_keys=True)}"
-        ctx.report(key, "correspondence", f"{c['family']}: emitted op sequence differs from the model's",
-                   {"program": c["src"], "params": c["params"], "emitted_tokens": c.get("impl_tokens"),
-                    "model_tokens": c.get("model_tokens"), "comp_wiring": c.get("comp_wiring"),
-                    "unevaluable_on_model_machine": c["id"] in unevaluable,
-                    "note": "no (array, index) was found on which the emitted sequence disagrees with list semantics; the proofs no longer cover the emitted code",
-                    "replay": replay_text(c)}, found_input=False)
-    for c, what in problems:
-        ctx.report(f"struct:{c['family']}:{json.dumps(c['params'], sort_keys=True)}", "correspondence", what,
-                   {"program": c["src"], "params": c["params"], "replay": replay_text(c)}, found_input=False)
     if model_tokens is None and work:
         ctx.report("model-eval", "proof-broken", "the model sequences could not be evaluated", {"notes": ctx.notes}, found_input=False)
     if not info["ok"] and not ctx.violations:
